@@ -117,8 +117,14 @@ namespace cs
         using Elem = typename std::conditional<cat == CAT_STR, char, T>::type;
         using CT   = typename std::conditional<
             Flavour == 0, typename K::template C<T, AlTyped>,
-            typename std::conditional<Flavour == 1, typename K::template C<T, AlAny>,
-                                      typename K::template C<T, AlStateless>>::type>::type;
+            typename std::conditional<
+                Flavour == 1, typename K::template C<T, AlAny>,
+                typename std::conditional<
+                    Flavour == 2, typename K::template C<T, AlStateless>,
+                    typename std::conditional<Flavour == 3, typename K::template C<T, AlP3>,
+                                              typename K::template C<T, AlP4>>::type>::type>::type>::type;
+        // what the specification (propagation_traits, default: everything propagates) says about this flavour
+        constexpr bool P_MOVE = Flavour != 3, P_COPY = Flavour < 3;
         using RT    = typename K::template C<T, AlRef>;
         using Alloc = typename CT::allocator_type;
         (void)sizeof(Elem);
@@ -126,10 +132,21 @@ namespace cs
         Env& env = *ctx.env;
         if (Flavour == 2)
             StatelessLeaf<1>::state() = &env.leaf[0];
+        static LeafP3 lp3[2];
+        static LeafP4 lp4[2];
+        for (int i = 0; i < 2; ++i)
+        {
+            lp3[i] = LeafP3(&env.leaf[i]);
+            lp4[i] = LeafP4(&env.leaf[i]);
+        }
         auto make_alloc = [&](int leaf) -> Alloc
         {
             if constexpr (Flavour == 2)
                 return Alloc(StatelessLeaf<1>{});
+            else if constexpr (Flavour == 3)
+                return Alloc(lp3[leaf]);
+            else if constexpr (Flavour == 4)
+                return Alloc(lp4[leaf]);
             else
                 return Alloc(env.la[leaf]);
         };
@@ -246,7 +263,10 @@ namespace cs
                 {
                     *s[a].c   = *s[b].c; // propagate_on_container_copy_assignment: the reference travels
                     ref[a]    = ref[b];
-                    s[a].leaf = s[b].leaf;
+                    if (P_COPY)
+                        s[a].leaf = s[b].leaf;
+                    else
+                        stats().hit("reach.container_assign_without_propagation");
                     ++ctx.cross_ops;
                 }
                 else if (o.kind == "mva" && a != b)
@@ -255,7 +275,10 @@ namespace cs
                     ref[a]    = std::move(ref[b]);
                     ref[b].clear();
                     s[b].c->clear();
-                    s[a].leaf = s[b].leaf;
+                    if (P_MOVE)
+                        s[a].leaf = s[b].leaf;
+                    else
+                        stats().hit("reach.container_assign_without_propagation");
                     ++ctx.cross_ops;
                 }
                 else if (o.kind == "swp" && a != b)
@@ -351,6 +374,22 @@ namespace cs
                     if (!s[i].c) // copy/move construction failed after the old container was destroyed
                         s[i].c.reset(new CT(make_alloc(s[i].leaf)));
                     resync(i);
+                }
+                // a propagating assignment that fails half way has replaced the target's allocator or has not (basic
+                // guarantee): see where a request made through the container's allocator arrives
+                if (stateful && (o.kind == "cpa" || o.kind == "mva") && a != b && s[a].leaf != s[b].leaf)
+                {
+                    env.log.begin_op(0);
+                    Alloc al = s[a].c->get_allocator();
+                    auto  p  = al.allocate(1);
+                    int   at = env.log.calls.back().leaf;
+                    al.deallocate(p, 1);
+                    if (at != s[a].leaf && at != s[b].leaf)
+                        violate("C10", "wrong_allocator", "%s failed and left the target bound to a third allocator",
+                                o.kind.c_str());
+                    if (at != s[a].leaf)
+                        stats().hit("reach.failed_assignment_had_propagated");
+                    s[a].leaf = at;
                 }
             }
             check(o.kind.c_str(), step);
